@@ -81,6 +81,8 @@ def run(ctx):
     cg = ctx.callgraph(facts.AS_CONFIGURED, 'lib')
     A = prog.require_func(ACTION)
     G = prog.require_func(GEN)
+    from engine import inline as _inl
+    G = _inl.inlined(prog, G)      # the expansion loop may hand parts of its work to file-local helpers
     genv, aenv = LinEnv(G), LinEnv(A)
     gcalls = A.calls(GEN)
     if len(gcalls) != 1:
@@ -94,6 +96,8 @@ def run(ctx):
     F_LOG = Lin.sym(('field', 'CFG->log_message_max_length'))
     for i, c in enumerate(dsc):
         buf = decl_of(arg(c, 1))
+        if buf is not None:
+            buf = dict(buf, id=common.alias_root(G, buf['id']))    # a helper's parameter stands for the caller's buffer
         size_in_g = genv.lin(arg(c, 2))
         size = subst_params(size_in_g, G, gc, aenv) if size_in_g is not None else None
         ok = size is not None and size == F_DS + Lin.const(1)
@@ -196,6 +200,8 @@ def run(ctx):
     for i, c in enumerate(dsc[:1]):
         nm = arg(c, 0)
         d = decl_of(nm)
+        if d is not None:
+            d = dict(d, id=common.alias_root(G, d['id']))
         okn, why = False, 'the name handed to the registry is not a variable'
         if d is not None:
             arrays_ = {x['id'] for x in G.local_decls() if 'arrayLen' in x}
@@ -268,7 +274,8 @@ def run(ctx):
             bad_.append(call)
         return bad_
     direct = []
-    other = writes_outside_append(G, G.params[0]['id'], G.params[1]['id'])
+    G0 = getattr(G, 'original', G)      # this clause follows helpers itself (parameter pairs), on the code as written
+    other = writes_outside_append(G0, G0.params[0]['id'], G0.params[1]['id'])
     chk.ob('L2', 'message-only-extended-by-bounded-append', not direct and not other,
            (direct + other)[0].where() if (direct + other) else G.where(), G.name,
            'the message buffer is written other than through %s(message, size, ...): %s' % (
@@ -292,9 +299,13 @@ def run(ctx):
            how='%d write obligation(s) of %s discharged: strlen(dest) + strlen(text) + 1 <= size' % (len(obls), STRAPPEND))
     # ---- L3 ------------------------------------------------------------------------------------
     n = 0
-    for f in prog.functions:
-        if f is A:
+    from engine import inline
+    for f0 in prog.functions:
+        if f0 is A:
             continue
+        if f0.internal and any(g.tu is f0.tu and g is not f0 and g.calls(f0.name) for g in prog.functions):
+            continue        # a file-local helper: judged inside the inlined view of its callers
+        f = inline.inlined(prog, f0)
         for c in f.calls(GEN):
             n += 1
             b = strip(arg(c, 0))
@@ -362,18 +373,21 @@ def fresh_empty_buffer(f, call, bufexpr):
 
 
 def last_write_is_reset(G, call, bid, resets):
-    """on every path to `call`, the last element that writes the buffer `bid` is a reset"""
+    """on every path to `call`, the last element that writes the buffer `bid` is a reset (plain copies of the buffer
+    pointer - parameters of inlined helpers - count as the buffer)"""
+    root = lambda x: common.alias_root(G, x) if x is not None else None
+
     def writes(e):
         if resets(e):
             return 'reset'
         if e.k == 'BinaryOperator' and e['op'] == '=':
             l = strip(e.ch[0])
-            if l.k == 'ArraySubscriptExpr' and (decl_of(l.ch[0]) or {}).get('id') == bid:
-                return 'write'
+            if l.k == 'ArraySubscriptExpr' and root((decl_of(l.ch[0]) or {}).get('id')) == bid:
+                return 'reset' if (strip(l.ch[1]).get('v') == 0 and strip(e.ch[1]).get('v') == 0) else 'write'
         if e.k == 'CallExpr':     # including the data source call itself when it is reached again round the loop
             for i, a in enumerate(e.ch[1:]):
                 d = decl_of(a) if a is not None else None
-                if d is not None and d['id'] == bid:
+                if d is not None and root(d['id']) == bid:
                     ptypes = e.get('calleeParamTypes') or []
                     pty = ptypes[i] if i < len(ptypes) else ''
                     from engine.statics import _pointee_const
